@@ -157,16 +157,19 @@ NatOf(p) == IF p = <<>> THEN 0 ELSE NatOf(SubSeq(p, 1, Len(p) - 1)) * 10 + (p[Le
 NoPort == -1
 Authority(h, p) == IF p = <<>> THEN h ELSE h \o <<COLON>> \o p      \* p: digit string, <<>> = no port
 
-HostSplit(s) ==          \* the reference split of an authority s; port NoPort when there is none
+(* the reference split of an authority s.  colon: the port separator is spelled; portstr: the port digits,
+   <<>> when there is no port OR the port is empty ("host:" is a valid authority, RFC 3986 section 3.2.3:
+   port = *DIGIT; it carries no port number) *)
+HostSplit(s) ==
     IF s # <<>> /\ s[1] = LBR THEN
         LET C == {i \in 1..Len(s) - 1 : s[i] = RBR /\ s[i + 1] = COLON}
-        IN  IF C # {} THEN [host |-> SubSeq(s, 2, MaxOf(C) - 1), portstr |-> SubSeq(s, MaxOf(C) + 2, Len(s))]
-            ELSE [host |-> SubSeq(s, 2, Len(s) - 1), portstr |-> <<>>]
+        IN  IF C # {} THEN [host |-> SubSeq(s, 2, MaxOf(C) - 1), portstr |-> SubSeq(s, MaxOf(C) + 2, Len(s)), colon |-> TRUE]
+            ELSE [host |-> SubSeq(s, 2, Len(s) - 1), portstr |-> <<>>, colon |-> FALSE]
     ELSE
         LET C == Positions(s, COLON)
         IN  IF Cardinality(C) = 1
-            THEN [host |-> SubSeq(s, 1, MinOf(C) - 1), portstr |-> SubSeq(s, MinOf(C) + 1, Len(s))]
-            ELSE [host |-> s, portstr |-> <<>>]
+            THEN [host |-> SubSeq(s, 1, MinOf(C) - 1), portstr |-> SubSeq(s, MinOf(C) + 1, Len(s)), colon |-> TRUE]
+            ELSE [host |-> s, portstr |-> <<>>, colon |-> FALSE]
 
 RegName(h)   == \A i \in 1..Len(h) : h[i] \notin {COLON, LBR, RBR}
 IpLiteral(h) == /\ Len(h) >= 3 /\ h[1] = LBR /\ h[Len(h)] = RBR
@@ -176,8 +179,9 @@ AuthorityShape(s) ==
     LET r == HostSplit(s)
         bracket == s # <<>> /\ s[1] = LBR
     IN  /\ (r.portstr = <<>> \/ (AllDigits(r.portstr) /\ Len(r.portstr) <= 6))
-        /\ IF bracket THEN IpLiteral(<<LBR>> \o r.host \o <<RBR>>) /\ Authority(<<LBR>> \o r.host \o <<RBR>>, r.portstr) = s
-           ELSE RegName(r.host) /\ Authority(r.host, r.portstr) = s
+        /\ LET tail == IF r.colon THEN <<COLON>> \o r.portstr ELSE <<>>
+            IN  IF bracket THEN IpLiteral(<<LBR>> \o r.host \o <<RBR>>) /\ <<LBR>> \o r.host \o <<RBR>> \o tail = s
+                ELSE RegName(r.host) /\ r.host \o tail = s
 
 (* IPv6address with one "::" and no embedded IPv4 (the forms short enough to be enumerated) *)
 ValidV6(x) ==
@@ -212,6 +216,8 @@ ValidHostForm(s) ==
 BareAuthority(s) == LET r == HostSplit(s)
                     IN  IF s # <<>> /\ s[1] = LBR THEN <<LBR>> \o r.host \o <<RBR>> ELSE r.host
 HasPort(s) == HostSplit(s).portstr # <<>>
+HasColon(s) == HostSplit(s).colon
+EmptyPort(b) == b \o <<COLON>>              \* the authority b with an empty port spelled
 
 ParseHost(s) == LET r == HostSplit(s)
                 IN  [host |-> r.host, port |-> IF r.portstr = <<>> THEN NoPort ELSE NatOf(r.portstr)]
